@@ -84,6 +84,31 @@ def gen_c16(read, num):
     def strs(xs):
         return "[" + ", ".join('"' + x + '"' for x in xs) + "]"
 
+    def accesses(text, field):
+        """every `<field>.<method>(` in the file (comments removed) with the function it occurs in, in textual order"""
+        text = re.sub(r"//[^\n]*", "", text)
+        fns = [(m.start(), m.group(1)) for m in re.finditer(r"\bfn\s+([a-z_0-9]+)\s*[<(]", text)]
+        out = []
+        for m in re.finditer(r"\b" + field + r"\s*\.\s*([a-z_]+)\s*\(", text):
+            fn = "?"
+            for pos, name in fns:
+                if pos < m.start():
+                    fn = name
+            out.append(fn + ":" + m.group(1))
+        return out
+
+    ref_acc = accesses(node, "reference_counter") if node is not None else []
+    alloc_acc = []
+    if src is not None:
+        for f in ("next_id", "next_serial"):
+            alloc_acc += [f + "@" + a for a in accesses(src, f)]
+    lines.append("/-- every access to `reference_counter` in crates/edp_node/src/node.rs as `function:method`, in textual order -/")
+    lines.append(f"def REFERENCE_COUNTER_ACCESSES : List String := {strs(ref_acc)}")
+    lines.append("")
+    lines.append("/-- every access to `next_id` / `next_serial` in crates/edp_client/src/pid_allocator.rs as `field@function:method` -/")
+    lines.append(f"def ALLOCATOR_COUNTER_ACCESSES : List String := {strs(alloc_acc)}")
+    lines.append("")
+
     lines.append("/-- `MAX_PROCESSES_PER_NODE` of crates/edp_client/src/pid_allocator.rs -/")
     lines.append(f"def MAX_PROCESSES_PER_NODE : Nat := {maxp}")
     lines.append("")
